@@ -363,4 +363,155 @@ theorem decompress_resume (r : Regs) (a b out : Array UInt8) (pos budget1 budget
       rw [hx]
       exact ⟨hBC2, hZ2, hd2.elim Or.inl fun h => Or.inr (Or.inl h)⟩
 
+/-! ### Any number of calls -/
+
+/-- A driver's sequence of calls: each call is offered the bytes the previous call left unconsumed
+    followed by a new chunk, writes where the previous call stopped, and may fill the buffer up to
+    `pos0 + g` (`g`: the total output grant so far, counted from the first call's position). -/
+def runCalls (flags pos0 : Nat) : Regs → Array UInt8 → Nat → Array UInt8 → List (Array UInt8 × Nat) → List Res
+  | _, _, _, _, [] => []
+  | r, out, pos, carry, (chunk, g) :: rest =>
+    let res := decompress r (carry ++ chunk) out pos (pos0 + g - pos) flags
+    res :: runCalls flags pos0 res.r res.out (pos + res.written)
+      ((carry ++ chunk).extract res.consumed (carry ++ chunk).size) rest
+
+def catChunks : List (Array UInt8 × Nat) → Array UInt8
+  | [] => #[]
+  | (chunk, _) :: rest => chunk ++ catChunks rest
+
+def lastGrant : List (Array UInt8 × Nat) → Nat
+  | [] => 0
+  | [(_, g)] => g
+  | _ :: c :: rest => lastGrant (c :: rest)
+
+def sumWritten (rs : List Res) : Nat := (rs.map (·.written)).sum
+def sumConsumed (rs : List Res) : Nat := (rs.map (·.consumed)).sum
+
+def suspended (res : Res) : Prop := res.status = stNeedsMoreInput ∨ res.status = stHasMoreOutput
+
+/-- grants never shrink -/
+def grantsMono : List (Array UInt8 × Nat) → Prop
+  | [] => True
+  | [_] => True
+  | (_, g1) :: (c2, g2) :: rest => g1 ≤ g2 ∧ grantsMono ((c2, g2) :: rest)
+
+theorem grantsMono_head_le_last : ∀ (calls : List (Array UInt8 × Nat)) (c : Array UInt8) (g : Nat),
+    grantsMono ((c, g) :: calls) → g ≤ lastGrant ((c, g) :: calls) := by
+  intro calls
+  induction calls with
+  | nil => intro c g _; exact Nat.le_refl _
+  | cons hd tl ih =>
+    intro c g h
+    obtain ⟨c2, g2⟩ := hd
+    exact Nat.le_trans h.1 (ih c2 g2 h.2)
+
+/-- ANY NUMBER OF CALLS AGAINST ONE. If every call but the last reports "needs more input" or "has
+    more output", the last call's result is the result of the single call on all the input offered,
+    with the final grant: same status, same buffer; the written counts add up; unless the stream
+    fails the consumed counts add up; unless it fails or is truncated without the more-input flag the
+    registers agree. -/
+theorem runCalls_last (flags pos0 : Nat) : ∀ (calls : List (Array UInt8 × Nat)) (r : Regs) (out : Array UInt8)
+    (pos : Nat) (carry : Array UInt8) (c : Array UInt8) (g : Nat),
+    Bnd r → badGeometry flags out.size pos = false → grantsMono ((c, g) :: calls) →
+    (∀ res ∈ (runCalls flags pos0 r out pos carry ((c, g) :: calls)).dropLast, suspended res) →
+    ∀ last, (runCalls flags pos0 r out pos carry ((c, g) :: calls)).getLast? = some last →
+    let one := decompress r (carry ++ catChunks ((c, g) :: calls)) out pos (pos0 + lastGrant ((c, g) :: calls) - pos) flags
+    one.status = last.status ∧ one.out = last.out ∧
+    one.written = sumWritten (runCalls flags pos0 r out pos carry ((c, g) :: calls)) ∧
+    (one.status ≠ stFailed → one.consumed = sumConsumed (runCalls flags pos0 r out pos carry ((c, g) :: calls))) ∧
+    (one.status ≠ stFailed → one.status ≠ stFailedCannotMakeProgress → one.r = last.r) := by
+  intro calls
+  induction calls with
+  | nil =>
+    intro r out pos carry c g _ _ _ _ last hlast
+    simp only [runCalls, List.getLast?_singleton, Option.some.injEq] at hlast
+    subst hlast
+    have hc : carry ++ catChunks [(c, g)] = carry ++ c := by simp [catChunks]
+    rw [hc]
+    refine ⟨rfl, rfl, ?_, fun _ => ?_, fun _ _ => rfl⟩
+    · simp [runCalls, sumWritten, lastGrant]
+    · simp [runCalls, sumConsumed, lastGrant]
+  | cons hd tl ih =>
+    intro r out pos carry c g hb hg hmono hsus last hlast
+    obtain ⟨c2, g2⟩ := hd
+    -- the first call is not the last one: it is suspended
+    have hrc : runCalls flags pos0 r out pos carry ((c, g) :: (c2, g2) :: tl) =
+        decompress r (carry ++ c) out pos (pos0 + g - pos) flags ::
+          runCalls flags pos0 (decompress r (carry ++ c) out pos (pos0 + g - pos) flags).r
+            (decompress r (carry ++ c) out pos (pos0 + g - pos) flags).out
+            (pos + (decompress r (carry ++ c) out pos (pos0 + g - pos) flags).written)
+            ((carry ++ c).extract (decompress r (carry ++ c) out pos (pos0 + g - pos) flags).consumed (carry ++ c).size)
+            ((c2, g2) :: tl) := rfl
+    generalize hres1 : decompress r (carry ++ c) out pos (pos0 + g - pos) flags = res1 at hrc
+    have hne : runCalls flags pos0 res1.r res1.out (pos + res1.written)
+        ((carry ++ c).extract res1.consumed (carry ++ c).size) ((c2, g2) :: tl) ≠ [] := by
+      simp [runCalls]
+    have hs1 : suspended res1 := by
+      apply hsus
+      rw [hrc, List.dropLast_cons_of_ne_nil hne]
+      exact List.mem_cons_self
+    have hsus' : ∀ res ∈ (runCalls flags pos0 res1.r res1.out (pos + res1.written)
+        ((carry ++ c).extract res1.consumed (carry ++ c).size) ((c2, g2) :: tl)).dropLast, suspended res := by
+      intro res hmem
+      apply hsus
+      rw [hrc, List.dropLast_cons_of_ne_nil hne]
+      exact List.mem_cons_of_mem _ hmem
+    have hlast' : (runCalls flags pos0 res1.r res1.out (pos + res1.written)
+        ((carry ++ c).extract res1.consumed (carry ++ c).size) ((c2, g2) :: tl)).getLast? = some last := by
+      obtain ⟨x, xs, hx⟩ := List.exists_cons_of_ne_nil hne
+      rw [hrc, hx, List.getLast?_cons_cons] at hlast
+      rw [hx]; exact hlast
+    -- the two-call theorem, second "call" = the single call that stands for all later calls
+    have hgl : g ≤ lastGrant ((c2, g2) :: tl) := Nat.le_trans hmono.1 (grantsMono_head_le_last tl c2 g2 hmono.2)
+    have hfacts := decompress_facts r (carry ++ c) out pos (pos0 + g - pos) flags
+    rw [hres1] at hfacts
+    have hwb : res1.written ≤ pos0 + g - pos := hfacts.wBudget
+    have hres := decompress_resume r (carry ++ c) (catChunks ((c2, g2) :: tl)) out pos (pos0 + g - pos)
+      (pos0 + lastGrant ((c2, g2) :: tl) - (pos + res1.written)) flags hb hg (by rw [hres1]; exact hs1)
+      (by rw [hres1]; omega)
+    rw [hres1] at hres
+    dsimp only at hres
+    obtain ⟨e1, e2, e3, e4, e5, hb1, _⟩ := hres
+    have hg1 : badGeometry flags res1.out.size (pos + res1.written) = false := by
+      have hroom := hfacts.room
+      simp only [badGeometry, Bool.or_eq_false_iff, decide_eq_false_iff_not, Nat.not_lt] at hg ⊢
+      rw [hfacts.size]
+      exact ⟨hg.1, by omega⟩
+    have hIH := ih res1.r res1.out (pos + res1.written) ((carry ++ c).extract res1.consumed (carry ++ c).size)
+      c2 g2 hb1 hg1 hmono.2 hsus' last hlast'
+    dsimp only at hIH
+    obtain ⟨i1, i2, i3, i4, i5⟩ := hIH
+    -- the single call over everything is the `res` of the two-call theorem
+    have hinp : carry ++ catChunks ((c, g) :: (c2, g2) :: tl) = (carry ++ c) ++ catChunks ((c2, g2) :: tl) := by
+      show carry ++ (c ++ catChunks ((c2, g2) :: tl)) = _
+      rw [Array.append_assoc]
+    have hbudget : pos0 + lastGrant ((c, g) :: (c2, g2) :: tl) - pos =
+        res1.written + (pos0 + lastGrant ((c2, g2) :: tl) - (pos + res1.written)) := by
+      show pos0 + lastGrant ((c2, g2) :: tl) - pos = _
+      omega
+    rw [hinp, hbudget]
+    have hsw : sumWritten (runCalls flags pos0 r out pos carry ((c, g) :: (c2, g2) :: tl)) =
+        res1.written + sumWritten (runCalls flags pos0 res1.r res1.out (pos + res1.written)
+          ((carry ++ c).extract res1.consumed (carry ++ c).size) ((c2, g2) :: tl)) := by
+      rw [hrc]; simp [sumWritten]
+    have hsc : sumConsumed (runCalls flags pos0 r out pos carry ((c, g) :: (c2, g2) :: tl)) =
+        res1.consumed + sumConsumed (runCalls flags pos0 res1.r res1.out (pos + res1.written)
+          ((carry ++ c).extract res1.consumed (carry ++ c).size) ((c2, g2) :: tl)) := by
+      rw [hrc]; simp [sumConsumed]
+    rw [hsw, hsc]
+    refine ⟨e1.trans i1, e2.trans i2, by rw [e3, i3], fun hnf => ?_, fun hnf hnp => ?_⟩
+    · rw [e4 hnf, i4 (by rw [← e1]; exact hnf)]
+    · rw [e5 hnf hnp]
+      exact i5 (by rw [← e1]; exact hnf) (by rw [← e1]; exact hnp)
+
+/-- a fresh decoder keeps the buffer discipline -/
+theorem Bnd_fresh : Bnd ({} : Regs) := by
+  refine ⟨⟨by show (0 : Nat) < 2 ^ 0; decide, ⟨fun buf m _ => ?_, fun i => ?_⟩⟩, ⟨fun h => rfl, fun h => Or.inl rfl⟩, Or.inl (by show (0 : Nat) < 8; decide)⟩
+  · show decodeBuf { count := #[], syms := #[] } buf m ≠ .short
+    unfold decodeBuf decodeBufAux
+    simp
+  · show (Array.replicate 19 0).getD i 0 ≤ 7
+    simp only [Array.getD_eq_getD_getElem?, Array.getElem?_replicate]
+    split <;> simp
+
 end Model.Core
